@@ -205,6 +205,7 @@ pub async fn scenario(line: &str) -> String {
     "fanin" => fanin(&p).await,
     "secure" => secure(&p).await,
     "framewise" => framewise(&p).await,
+    "pubstall" => pubstall(&p).await,
     "bigmulti" => bigmulti(&p).await,
     "faultlocal" => faultlocal(&p).await,
     _ => "bad-op".to_string(),
@@ -1831,6 +1832,10 @@ async fn linger(p: &[&str]) -> String {
   let how = opts.get("how").cloned().unwrap_or_else(|| "close".into());
   let pace = Duration::from_micros(opts.get("pace_us").and_then(|v| v.parse().ok()).unwrap_or(0));
   let linger_ms: i64 = scfg.get("linger").and_then(|v| v.parse().ok()).unwrap_or(0);
+  // stall=1: the receiver does not read until the sender has been closed; side=bind: the SENDER binds (so that "the
+  // closed socket has really finished" is observable: its endpoint can be bound again)
+  let stall = opts.get("stall").map(|v| v == "1").unwrap_or(false);
+  let sender_binds = opts.get("side").map(|v| v == "bind").unwrap_or(false);
   // inproc needs one Context for both ends
   let rctx = Context::new().expect("ctx");
   let sctx = if transport == "inproc" { rctx.clone() } else { Context::new().expect("ctx") };
@@ -1847,20 +1852,26 @@ async fn linger(p: &[&str]) -> String {
     "ipc" => format!("ipc:///tmp/{}.sock", unique_name("rzmq-verif-linger")),
     _ => format!("inproc://{}", unique_name("linger")),
   };
-  if let Err(e) = rcv.bind(&ep).await {
+  let (binder, connector) = if sender_binds { (&snd, &rcv) } else { (&rcv, &snd) };
+  if let Err(e) = binder.bind(&ep).await {
     return format!("setup-error bind {}", err_class(&e));
   }
-  let target = if transport == "tcp" { last_endpoint(&rcv).await } else { ep.clone() };
-  if let Err(e) = snd.connect(&target).await {
+  let target = if transport == "tcp" { last_endpoint(binder).await } else { ep.clone() };
+  if let Err(e) = connector.connect(&target).await {
     return format!("setup-error connect {}", err_class(&e));
   }
   tokio::time::sleep(Duration::from_millis(250)).await;
+  let go = std::sync::Arc::new(tokio::sync::Notify::new());
+  let go2 = go.clone();
   let _ = set_i32(&rcv, o::RCVTIMEO, 1500).await;
   // receiver task: read until nothing arrives for 1.5 s
   let rcv2 = rcv.clone();
   let reader = tokio::spawn(async move {
     let mut seqs: Vec<u32> = Vec::new();
     let mut damaged: Option<String> = None;
+    if stall {
+      go2.notified().await;
+    }
     loop {
       match rcv2.recv_multipart().await {
         Ok(frames) => {
@@ -1889,10 +1900,10 @@ async fn linger(p: &[&str]) -> String {
   for i in 0..count {
     let mut body = vec![(i % 251) as u8; size.max(8)];
     body[..4].copy_from_slice(&i.to_be_bytes());
-    if snd.send(Msg::from_vec(body)).await.is_err() {
-      break;
+    match tokio::time::timeout(Duration::from_millis(if stall { 300 } else { 20000 }), snd.send(Msg::from_vec(body))).await {
+      Ok(Ok(())) => accepted += 1,
+      _ => break,
     }
-    accepted += 1;
   }
   let t0 = Instant::now();
   let closed = tokio::time::timeout(Duration::from_secs(40), async {
@@ -1920,6 +1931,31 @@ async fn linger(p: &[&str]) -> String {
   })
   .await;
   let took = t0.elapsed();
+  // the closed socket has really finished: what it had bound can be bound again (bounded LINGER only)
+  let mut rebind_problem: Option<String> = None;
+  // (dropping a handle closes nothing by itself: the socket lives until its context is terminated, which the shared
+  // context of an inproc pair is not)
+  if sender_binds && linger_ms >= 0 && !(how == "drop" && transport == "inproc") {
+    let ctx3 = if transport == "inproc" { rctx.clone() } else { Context::new().expect("ctx3") };
+    let probe = ctx3.socket(socket_type(scfg.get("type").map(|s| s.as_str()).unwrap_or("PUSH"))).unwrap();
+    let deadline = Instant::now() + Duration::from_millis(linger_ms as u64 + 2500);
+    let mut ok = false;
+    while Instant::now() < deadline {
+      if probe.bind(&target).await.is_ok() {
+        ok = true;
+        break;
+      }
+      tokio::time::sleep(Duration::from_millis(100)).await;
+    }
+    if !ok {
+      rebind_problem = Some(format!("key=linger-time {} ms after close() with LINGER {} ms the socket still holds its endpoint: it has not finished closing", linger_ms + 2500, linger_ms));
+    }
+    let _ = tokio::time::timeout(Duration::from_secs(3), probe.close()).await;
+    if transport != "inproc" {
+      let _ = tokio::time::timeout(Duration::from_secs(12), ctx3.term()).await;
+    }
+  }
+  go.notify_one();
   let (seqs, damaged) = reader.await.unwrap_or((Vec::new(), Some("reader task died".into())));
   let _ = tokio::time::timeout(Duration::from_secs(5), rcv.close()).await;
   let _ = tokio::time::timeout(Duration::from_secs(12), rctx.term()).await;
@@ -1927,6 +1963,9 @@ async fn linger(p: &[&str]) -> String {
     let _ = std::fs::remove_file(ep.trim_start_matches("ipc://"));
   }
   let mut problems = Vec::new();
+  if let Some(rp) = rebind_problem {
+    problems.push(rp);
+  }
   if let Some(d) = damaged {
     problems.push(format!("key=linger-integrity {}", d));
   }
@@ -1944,7 +1983,7 @@ async fn linger(p: &[&str]) -> String {
   }
   let all = seqs.len() as u32 == accepted;
   // LINGER -1, or one comfortably longer than the transfer needs: everything accepted must arrive
-  let must_all = linger_ms < 0 || linger_ms >= 8000;
+  let must_all = (linger_ms < 0 || linger_ms >= 8000) && !stall;
   if must_all && !all && problems.is_empty() {
     problems.push(format!(
       "key=linger-lost {} of {} accepted messages arrived although LINGER {} ms allowed the transfer (close returned after {} ms)",
@@ -2819,4 +2858,105 @@ async fn framewise(p: &[&str]) -> String {
     None if whole == n => "framewise=ok".into(),
     None => format!("ORACLE-FAIL key=framewise-lost {} whole messages of {}", whole, n),
   }
+}
+
+
+/// `pubstall <sndhwm> <messages> <size>`
+/// A PUB socket has a healthy rzmq SUB and a raw TCP subscriber that subscribes to everything and then never reads.
+/// The publisher must never be blocked by the stalled one (every send() returns within a second) and the healthy
+/// subscriber gets every message, in publication order.
+async fn pubstall(p: &[&str]) -> String {
+  let sndhwm: i32 = p[1].parse().unwrap();
+  let n: u32 = p[2].parse().unwrap();
+  let size: usize = p[3].parse().unwrap();
+  let ctx = Context::new().expect("ctx");
+  let publ = ctx.socket(SocketType::Pub).unwrap();
+  let _ = set_i32(&publ, o::SNDHWM, sndhwm).await;
+  if publ.bind("tcp://127.0.0.1:0").await.is_err() {
+    return "setup-error bind".into();
+  }
+  let ep = last_endpoint(&publ).await;
+  let sub = ctx.socket(SocketType::Sub).unwrap();
+  let _ = set_i32(&sub, o::RCVHWM, 100000).await;
+  let _ = set_i32(&sub, o::RCVTIMEO, 1500).await;
+  let _ = sub.set_option_raw(o::SUBSCRIBE, b"").await;
+  if sub.connect(&ep).await.is_err() {
+    return "setup-error connect".into();
+  }
+  // the stalled subscriber: greeting, READY(SUB), SUBSCRIBE "", then silence with a tiny receive window
+  let mut raw = match TcpStream::connect(ep.trim_start_matches("tcp://")).await {
+    Ok(s) => s,
+    Err(_) => return "setup-error raw connect".into(),
+  };
+  let mut g = vec![0xffu8, 0, 0, 0, 0, 0, 0, 0, 1, 0x7f, 3, 0];
+  let mut mech = b"NULL".to_vec();
+  mech.resize(20, 0);
+  g.extend_from_slice(&mech);
+  g.push(0);
+  g.resize(64, 0);
+  let mut ready = vec![5u8];
+  ready.extend_from_slice(b"READY");
+  ready.push(11);
+  ready.extend_from_slice(b"Socket-Type");
+  ready.extend_from_slice(&3u32.to_be_bytes());
+  ready.extend_from_slice(b"SUB");
+  let mut hs = g;
+  hs.push(0x04);
+  hs.push(ready.len() as u8);
+  hs.extend_from_slice(&ready);
+  hs.extend_from_slice(&[0x00, 0x01, 0x01]); // SUBSCRIBE ""
+  if raw.write_all(&hs).await.is_err() {
+    return "setup-error raw write".into();
+  }
+  tokio::time::sleep(Duration::from_millis(400)).await;
+  let sub2 = sub.clone();
+  let reader = tokio::spawn(async move {
+    let mut seqs = Vec::new();
+    loop {
+      match sub2.recv().await {
+        Ok(m) => {
+          let b = m.data().unwrap_or(&[]);
+          if b.len() >= 4 {
+            seqs.push(u32::from_be_bytes([b[0], b[1], b[2], b[3]]));
+          }
+        }
+        Err(_) => break,
+      }
+    }
+    seqs
+  });
+  let mut worst = Duration::ZERO;
+  let mut blocked_at: Option<u32> = None;
+  for i in 0..n {
+    let mut body = vec![7u8; size.max(4)];
+    body[..4].copy_from_slice(&i.to_be_bytes());
+    let t0 = Instant::now();
+    match tokio::time::timeout(Duration::from_secs(4), publ.send(Msg::from_vec(body))).await {
+      Ok(_) => worst = worst.max(t0.elapsed()),
+      Err(_) => {
+        blocked_at = Some(i);
+        break;
+      }
+    }
+    tokio::time::sleep(Duration::from_millis(2)).await;
+  }
+  let seqs = reader.await.unwrap_or_default();
+  drop(raw);
+  let _ = tokio::time::timeout(Duration::from_secs(3), sub.close()).await;
+  let _ = tokio::time::timeout(Duration::from_secs(3), publ.close()).await;
+  let _ = tokio::time::timeout(Duration::from_secs(12), ctx.term()).await;
+  if let Some(i) = blocked_at {
+    return format!("ORACLE-FAIL key=pub-blocked send #{} did not return within 4 s because one subscriber does not read", i);
+  }
+  if worst > Duration::from_millis(1000) {
+    return format!("ORACLE-FAIL key=pub-blocked a send took {} ms because one subscriber does not read", worst.as_millis());
+  }
+  let in_order = seqs.windows(2).all(|w| w[0] < w[1]);
+  if !in_order {
+    return format!("ORACLE-FAIL key=pub-order the healthy subscriber saw {:?}...", &seqs[..seqs.len().min(12)]);
+  }
+  if seqs.len() as u32 != n {
+    return format!("ORACLE-FAIL key=pub-delayed the healthy subscriber got {} of {} messages while another subscriber stalled", seqs.len(), n);
+  }
+  "pubstall=ok".into()
 }
